@@ -104,7 +104,7 @@ func checkWasmState(r *evid.Run, pool *wproto.Pool, d *DocState, concs []*tok.Co
 			w := pool.Call(rq, 30*time.Second)
 			r.Count("real_calls", 2)
 			rp := map[string]any{"doc_tokens": d.Doc, "doc_bytes": doc, "mode": m.name, "conc": c,
-				"default": map[string]string{"class": def.Class(), "out": def.Out, "err": def.ErrString()},
+				"default":  map[string]string{"class": def.Class(), "out": def.Out, "err": def.ErrString()},
 				"tinywasm": map[string]string{"class": w.Class, "out": w.Out, "err": w.Err}}
 			if w.Class == "panic" || w.Class == "hang" {
 				r.Mismatch("wasm-"+m.name+":"+w.Class, fmt.Sprintf("doc=%q tinywasm %s: %s", doc, w.Class, w.Err), rp)
